@@ -524,6 +524,7 @@ type c07Exp struct {
 	untouched    bool
 	answers      bool // must answer a probe with its counter intact (Resume)
 	role         string
+	keepIfSame   bool // not judged, but stays "known" when nothing about it changed in this step
 }
 
 type c07SigExp struct {
@@ -564,6 +565,14 @@ func c07Expect(all []*c07Node, target *c07Node, typeKey string, faultID, depth i
 		}
 	}()
 	open := func(n *c07Node) { e.per[n] = &c07Exp{judged: false} }
+	// the statement does not say what happens to s; if nothing at all is seen
+	// to happen to it (and its descendants), it keeps its place in the model
+	openSoft := func(n *c07Node) {
+		e.per[n] = &c07Exp{judged: false, keepIfSame: n.known}
+		for _, dn := range n.descendants() {
+			e.per[dn] = &c07Exp{judged: false, keepIfSame: dn.known}
+		}
+	}
 	openDesc := func(n *c07Node) {
 		for _, dn := range n.descendants() {
 			open(dn)
@@ -576,8 +585,7 @@ func c07Expect(all []*c07Node, target *c07Node, typeKey string, faultID, depth i
 		e.per[target] = &c07Exp{judged: true, state: c07Suspended, suspendedNow: true}
 		if oneForAll {
 			for _, s := range siblings {
-				open(s)
-				openDesc(s)
+				openSoft(s)
 			}
 		}
 	case int(supervisor.StopDirective):
@@ -588,7 +596,13 @@ func c07Expect(all []*c07Node, target *c07Node, typeKey string, faultID, depth i
 				if s.known && s.state == c07Stopped {
 					continue
 				}
-				e.per[s] = &c07Exp{judged: true, state: c07Stopped, stoppedNow: s.known}
+				if !s.known {
+					// something may still be in flight for it from an earlier step
+					open(s)
+					openDesc(s)
+					continue
+				}
+				e.per[s] = &c07Exp{judged: true, state: c07Stopped, stoppedNow: true}
 				openDesc(s)
 			}
 		}
@@ -596,8 +610,7 @@ func c07Expect(all []*c07Node, target *c07Node, typeKey string, faultID, depth i
 		e.per[target] = &c07Exp{judged: true, state: c07Running, untouched: true, answers: true}
 		if oneForAll {
 			for _, s := range siblings {
-				open(s)
-				openDesc(s)
+				openSoft(s)
 			}
 		}
 	case int(supervisor.EscalateDirective):
@@ -611,8 +624,7 @@ func c07Expect(all []*c07Node, target *c07Node, typeKey string, faultID, depth i
 		e.signals = append(e.signals, c07SigExp{FaultID: faultID, Depth: depth, Allowed: allowed, AllowedS: strings.Join(names, "|")})
 		if oneForAll {
 			for _, s := range siblings {
-				open(s)
-				openDesc(s)
+				openSoft(s)
 			}
 		}
 	case int(supervisor.RestartDirective):
@@ -788,6 +800,7 @@ type c07CaseResult struct {
 	Exhausted  int
 	Chains     int
 	BothRules  bool // a lookup was decided while a typed and an any-error rule were both in force
+	Fatal      bool // the batch cannot go on
 	CutAmbig   bool
 	OneForAllN int // steps under one-for-all with >= 1 sibling
 	History    []string
@@ -834,6 +847,13 @@ func c07RunCase(env *c07Env, c *c07Case, rng *rand.Rand) (res c07CaseResult) {
 	G := node("G", nil, nil)
 	var err error
 	if G.pid, err = env.sys.Spawn(ctx, G.name, mk("G"), WithLongLived()); err != nil {
+		if !env.sys.Running() {
+			// nothing in these scripts may take the whole actor system down
+			res.Sig = "system:stopped-while-supervising-user-actors"
+			res.Detail = map[string]any{"spawn_error": err.Error(), "case": c.Key()}
+			res.Fatal = true
+			return
+		}
 		env.t.Fatalf("c07 spawn G: %v", err)
 	}
 	defer func() { _ = G.pid.Shutdown(ctx) }()
@@ -889,9 +909,37 @@ func c07RunCase(env *c07Env, c *c07Case, rng *rand.Rand) (res c07CaseResult) {
 		}
 		return out
 	}
+	var curTarget *c07Node
 	fail := func(sig string, d map[string]any) {
 		if res.Sig != "" {
 			return
+		}
+		// diagnostic classification: is a live member of the failing group no
+		// longer linked to its parent in the actor tree? (then the runtime cannot
+		// find the supervisor / the siblings, whatever the directive says)
+		links := map[string]string{}
+		orphan := ""
+		for _, n := range all {
+			if n.parent == nil || c07PidState(n.pid) == c07Stopped {
+				continue
+			}
+			pp := n.pid.Parent()
+			if pp != nil && pp.Equals(n.parent.pid) {
+				links[n.label] = "linked"
+				continue
+			}
+			links[n.label] = "MISSING"
+			if curTarget != nil && n.parent == curTarget.parent && n.known && orphan == "" {
+				orphan = "sibling"
+				if n == curTarget {
+					orphan = "target"
+				}
+			}
+		}
+		d["actor_tree_parent_links"] = fmt.Sprint(links)
+		if orphan != "" {
+			d["would_be_signature"] = sig
+			sig = "actor-tree:live-child-lost-parent-link:" + orphan
 		}
 		res.Sig = sig
 		d["config_children"] = c.ChildCfg.String()
@@ -921,6 +969,7 @@ func c07RunCase(env *c07Env, c *c07Case, rng *rand.Rand) (res c07CaseResult) {
 		if target == nil {
 			break
 		}
+		curTarget = target
 		cfg := target.cfg
 		window := cfg.window()
 		if it.Outside && window > 0 && window <= time.Second {
@@ -990,6 +1039,21 @@ func c07RunCase(env *c07Env, c *c07Case, rng *rand.Rand) (res c07CaseResult) {
 			return
 		}
 		chained := false
+		if chain && cfg.lookup(c07KindType(it.Kind)) == int(supervisor.EscalateDirective) {
+			// the re-raise happens inside the handler invocation that logs the
+			// PanicSignal: wait for that log entry rather than trusting idleness alone
+			verifrt.WaitUntil(20*time.Second, func() bool {
+				led.mu.Lock()
+				defer led.mu.Unlock()
+				for _, sr := range led.signals[sigBase:] {
+					if sr.FaultID == f.ID {
+						return true
+					}
+				}
+				return false
+			})
+			verifrt.WaitUntil(40*time.Second, quiet(target.parent.pid))
+		}
 		if chain {
 			led.mu.Lock()
 			chained = led.reraised[target.parent.name] > reraisedBefore
@@ -1027,33 +1091,49 @@ func c07RunCase(env *c07Env, c *c07Case, rng *rand.Rand) (res c07CaseResult) {
 			}
 			both = typed && anyRule && !cfg.Default
 		}
-		exp := c07Expect(all, target, c07KindType(it.Kind), f.ID, 1, tLo, tHi)
-		stepText := fmt.Sprintf("step %d: %s on %s => %s (%s)", stepNo, c07KindNames[it.Kind], target.label, exp.directive, exp.strategy)
+		type cntSnap struct {
+			lo, hi int
+			has    bool
+			l1, l2 time.Time
+		}
+		snap := map[*c07Node]cntSnap{}
+		for _, n := range all {
+			snap[n] = cntSnap{n.cntLo, n.cntHi, n.hasLast, n.lastLo, n.lastHi}
+		}
+		// build computes the demands for this step given the upper bound of the
+		// moment the runtime stamped the fault(s); it advances the model's counters
+		build := func(hi time.Time) (*c07StepExp, string) {
+			for n, c := range snap {
+				n.cntLo, n.cntHi, n.hasLast, n.lastLo, n.lastHi = c.lo, c.hi, c.has, c.l1, c.l2
+			}
+			e := c07Expect(all, target, c07KindType(it.Kind), f.ID, 1, tLo, hi)
+			text := fmt.Sprintf("step %d: %s on %s => %s (%s)", stepNo, c07KindNames[it.Kind], target.label, e.directive, e.strategy)
+			if e.ambiguous || !chained {
+				return e, text
+			}
+			par := target.parent
+			e2 := c07Expect(all, par, c07KindType(it.Chain-1), f.ID, 2, tLo, hi)
+			text += fmt.Sprintf(" ; chained: %s re-raised %s => %s (%s)", par.label, c07KindNames[it.Chain-1], e2.directive, e2.strategy)
+			if e2.ambiguous {
+				e.ambiguous = true
+				return e, text
+			}
+			for n, x2 := range e2.per {
+				if x2.judged && x2.untouched && n != par {
+					continue // keep what the first failure demands
+				}
+				e.per[n] = x2
+			}
+			e.signals = append(e.signals, e2.signals...)
+			e.directive += "+" + e2.directive
+			return e, text
+		}
+		exp, stepText := build(tHi)
 		if exp.ambiguous {
 			res.CutAmbig = true
 			res.History = append(res.History, stepText+" [timing relative to the window undecidable: case cut]")
 			return
 		}
-		if chained && !exp.ambiguous {
-			par := target.parent
-			exp2 := c07Expect(all, par, c07KindType(it.Chain-1), f.ID, 2, tLo, tHi)
-			stepText += fmt.Sprintf(" ; chained: %s re-raised %s => %s (%s)", par.label, c07KindNames[it.Chain-1], exp2.directive, exp2.strategy)
-			if exp2.ambiguous {
-				res.CutAmbig = true
-				res.History = append(res.History, stepText+" [timing undecidable: case cut]")
-				return
-			}
-			res.Chains++
-			for n, x2 := range exp2.per {
-				if x2.judged && x2.untouched && n != par {
-					continue // keep what step 1 said
-				}
-				exp.per[n] = x2
-			}
-			exp.signals = append(exp.signals, exp2.signals...)
-			exp.directive += "+" + exp2.directive
-		}
-		res.History = append(res.History, stepText)
 		res.Outcomes[exp.directive] = true
 		if both {
 			res.BothRules = true
@@ -1081,10 +1161,46 @@ func c07RunCase(env *c07Env, c *c07Case, rng *rand.Rand) (res c07CaseResult) {
 						return false
 					}
 				}
+				if x.stoppedNow && ev.get(n.name, "stopped") == 0 {
+					return false
+				}
+				if x.suspendedNow && ev.get(n.name, "suspended") == 0 {
+					return false
+				}
+			}
+			led.mu.Lock()
+			defer led.mu.Unlock()
+			for _, se := range exp.signals {
+				found := false
+				for _, sr := range led.signals[sigBase:] {
+					if sr.FaultID == se.FaultID && sr.Depth == se.Depth {
+						found = true
+					}
+				}
+				if !found {
+					return false
+				}
 			}
 			return true
 		})
 		_ = settled
+		// every effect demanded has been seen (or the watchdog expired): the runtime
+		// stamped the fault before now. Re-derive the demands with this safe upper
+		// bound; if the budget decision could have gone the other way, do not judge.
+		{
+			first := exp.directive
+			var text2 string
+			exp, text2 = build(time.Now())
+			if exp.ambiguous || exp.directive != first {
+				res.CutAmbig = true
+				res.History = append(res.History, text2+" [timing relative to the window undecidable: case cut]")
+				return
+			}
+		}
+		if chained {
+			res.Chains++
+		}
+		res.History = append(res.History, stepText)
 		time.Sleep(2 * time.Millisecond) // best effort: lets stray extra actions surface; never decides anything
 		post := observe(func(n *c07Node) bool { return exp.per[n].judged })
 		env.drain(c.Prefix, ev)
@@ -1107,12 +1223,15 @@ func c07RunCase(env *c07Env, c *c07Case, rng *rand.Rand) (res c07CaseResult) {
 		}
 		for _, n := range all {
 			x := exp.per[n]
+			a, b := pre[n], post[n]
 			if !x.judged {
-				n.known = false
-				n.state = post[n].state
+				same := x.keepIfSame && n.known && a.state == b.state && a.prestarts == b.prestarts && a.attempts == b.attempts && a.poststops == b.poststops && a.restarts == b.restarts && len(ev[n.name]) == 0
+				if !same {
+					n.known = false
+				}
+				n.state = b.state
 				continue
 			}
-			a, b := pre[n], post[n]
 			if b.state != x.state {
 				fail(tag(fmt.Sprintf("state:want-%s-got-%s", c07StateNames[x.state], c07StateNames[b.state]), n), detail(n, nil))
 				return
@@ -1320,7 +1439,7 @@ func TestVerif_C07(t *testing.T) {
 	}
 
 	rng := r.Rand(1)
-	n := r.N(240, 3000)
+	n := r.N(400, 4000)
 	for i := 0; i < n; i++ {
 		c := c07GenCase(rng, i)
 		res := c07RunCase(env, c, rng)
@@ -1345,6 +1464,9 @@ func TestVerif_C07(t *testing.T) {
 		}
 		if res.Sig != "" {
 			r.Violation(res.Sig, res.Detail)
+		}
+		if res.Fatal {
+			break
 		}
 		if i < 3 {
 			r.Sample(map[string]any{"config": c.ChildCfg.String(), "children": c.NChild, "grandchild": c.HasGC, "history": res.History})
